@@ -49,6 +49,26 @@ func (p *C12) Generate(seed uint64, run int) *Case {
 		b = p.w.GenInfo(r)
 	}
 	c := &Case{Property: "C12", Kind: "family", Seed: seed, Run: run}
+	// byte-level shapes an input path might treat differently from another
+	if b.Input != nil {
+		switch r.Intn(40) {
+		case 0:
+			b.Input = append([]byte("\xef\xbb\xbf"), b.Input...)
+			c.Labels = append(c.Labels, "input:bom")
+		case 1:
+			b.Input = bytes.ReplaceAll(b.Input, []byte("\n"), []byte("\r\n"))
+			c.Labels = append(c.Labels, "input:crlf")
+		case 2:
+			b.Input = bytes.TrimRight(b.Input, "\n")
+			c.Labels = append(c.Labels, "input:no-final-newline")
+		case 3:
+			b.Input = append(b.Input, []byte("\n\n\n")...)
+			c.Labels = append(c.Labels, "input:extra-newlines")
+		case 4:
+			b.Input = append(b.Input, 0x1a)
+			c.Labels = append(c.Labels, "input:ctrl-z")
+		}
+	}
 	// one run in five: an input that makes the command fail
 	if b.Input != nil && r.Chance(1, 5) {
 		b.Input = breakInput(r, &b)
